@@ -88,6 +88,19 @@ static void preset(Simulate *sim, int which)
     }
     for (int n = 0; REGNAMES[n] != NULL; n++) { if (strcmp(REGNAMES[n], "pc") != 0) sim->set_reg(REGNAMES[n], value); }
   }
+  // 7, 8, 9: every third register zero, the others all ones (a zero divisor next to a non-zero dividend, a null pointer next to data)
+  if (which >= 7 && which <= 9)
+  {
+    int k = which - 7;
+    for (int n = 0; n < 40; n++)
+    {
+      uint32_t v = (n % 3) == k ? 0 : 0xffffffff;
+      snprintf(name, sizeof(name), "r%d", n); sim->set_reg(name, v);
+      snprintf(name, sizeof(name), "x%d", n); sim->set_reg(name, v);
+      snprintf(name, sizeof(name), "$%d", n); sim->set_reg(name, v);
+    }
+    for (int n = 0; REGNAMES[n] != NULL; n++) { if (strcmp(REGNAMES[n], "pc") != 0) sim->set_reg(REGNAMES[n], (n % 3) == k ? 0 : 0xffffffff); }
+  }
   // stack pointer at the edges
   uint32_t sp = which == 3 ? 0 : (which == 4 ? 1 : (which == 5 ? 0xffff : (which == 6 ? 0xfffe : 0)));
   if (which >= 3 && which <= 6)
